@@ -82,12 +82,30 @@ pub enum Topo {
     StrayAtyp,
     /// an IPv4 header that ends inside the address: `00 00 00 01 7f 00`
     StrayTruncated,
+    /// SOCKS5 (IP-typed headers) only, and only where [::1] exists: one local socket, ONE
+    /// association, alternately talking to a target on 127.0.0.1 (ATYP 1) and a target on [::1]
+    /// (ATYP 4): A, B, A, B. Every datagram has to reach its target, the FIRST transmission already
+    /// (judged like the stray-datagram scenarios: definitively, with a fresh association as control)
+    TwoFamilies,
+    /// the same with the target on [::1] first: B, A, B, A
+    TwoFamilies6,
+}
+
+/// Does this machine (network namespace) have the IPv6 loopback address, for UDP sockets too?
+pub fn ipv6_loopback() -> bool {
+    static PROBE: std::sync::OnceLock<bool> = std::sync::OnceLock::new();
+    *PROBE.get_or_init(|| std::net::UdpSocket::bind("[::1]:0").is_ok() && super::c01_tcp::ipv6_loopback())
 }
 
 /// length of the payloads of the real-time scenarios
 pub const SLOW_LEN: usize = 32;
 /// length of the payloads of the stray-datagram scenarios
 pub const STRAY_LEN: usize = 32;
+/// length of the payloads of the two-address-families scenarios
+pub const FAMILIES_LEN: usize = 32;
+/// how long the FIRST transmission of an exchange of a two-address-families scenario gets before
+/// the control exchange (a fresh association) is made
+pub const FAMILIES_FIRST_TX_MS: u64 = 500;
 /// silence of the idle-gap scenario beyond UDP_PRUNE_TIMEOUT
 pub const GAP_EXTRA_S: u64 = 2;
 /// how long the first datagram after the idle gap may take to the target (no retransmission before)
@@ -106,6 +124,16 @@ impl Topo {
     pub const SLOW: [Topo; 3] = [Topo::Steady, Topo::Idle, Topo::IdleGap];
     /// the stray-datagram topologies (SOCKS5 UDP only, one payload length, both tiers)
     pub const STRAY: [Topo; 3] = [Topo::StrayShort, Topo::StrayAtyp, Topo::StrayTruncated];
+    /// the two-address-families topologies (SOCKS5 UDP with IP-typed headers only, one payload
+    /// length, both tiers, only where [::1] exists)
+    pub const FAMILIES: [Topo; 2] = [Topo::TwoFamilies, Topo::TwoFamilies6];
+    pub fn two_families(self) -> bool {
+        matches!(self, Topo::TwoFamilies | Topo::TwoFamilies6)
+    }
+    /// the scenario may make a control exchange through a fresh association
+    pub fn has_control(self) -> bool {
+        self.stray().is_some() || self.two_families()
+    }
     pub fn slow(self) -> bool {
         matches!(self, Topo::Steady | Topo::Idle | Topo::IdleGap)
     }
@@ -132,10 +160,12 @@ impl Topo {
             Topo::StrayShort => "stray-datagram-2-bytes-to-relay",
             Topo::StrayAtyp => "stray-datagram-unknown-atyp-to-relay",
             Topo::StrayTruncated => "stray-datagram-truncated-ipv4-header-to-relay",
+            Topo::TwoFamilies => "1-association-2-targets-ipv4-then-ipv6",
+            Topo::TwoFamilies6 => "1-association-2-targets-ipv6-then-ipv4",
         }
     }
     pub fn parse(s: &str) -> Option<Self> {
-        Self::ALL.into_iter().chain(Self::SLOW).chain(Self::STRAY).find(|e| e.name() == s)
+        Self::ALL.into_iter().chain(Self::SLOW).chain(Self::STRAY).chain(Self::FAMILIES).find(|e| e.name() == s)
     }
 }
 
@@ -158,6 +188,7 @@ impl UdpCase {
             "exchanges_per_leg": self.exchanges(),
             "udp_prune_timeout_s": prune_timeout().as_secs(),
             "stray_datagram_hex": self.topo.stray().map(|(d, _)| vcommon::report::hex(d)),
+            "targets": if self.topo.two_families() { json!((0..self.exchanges()).map(|q| if (self.target_idx(0, q) == 0) == (self.topo == Topo::TwoFamilies) { "127.0.0.1:P (ATYP 1)" } else { "[::1]:Q (ATYP 4)" }).collect::<Vec<_>>()) } else { Value::Null },
             "payload_rule": "payload length of exchange seq = len, except in the varying-lengths topology (len, 3, len+500, 0, len+1); request(len, leg, seq): len 1 -> [0x40|leg<<4|seq]; len>=2 -> [0xC0|leg, seq, xorshift64* stream]; reply = request XOR mask bytewise, mask 0xA5 for target A and 0x5A for target B; exchange seq goes to target seq%2 in the two-target topologies; see c01_udp.rs",
             "requests_hex": (0..self.legs().len()).map(|l| (0..self.exchanges().min(4)).map(|q| { let r = request(self.len_at(q), l, q); vcommon::report::hex(&r[..r.len().min(16)]) }).collect::<Vec<_>>()).collect::<Vec<_>>(),
         })
@@ -177,6 +208,7 @@ impl UdpCase {
             (Topo::Shared, _) => vec![(0, 0), (0, 1)],
             (Topo::TwoPorts | Topo::TwoHosts | Topo::Steady | Topo::Idle | Topo::IdleGap, _) => vec![(0, 0)],
             (Topo::StrayShort | Topo::StrayAtyp | Topo::StrayTruncated, _) => vec![(0, 0)],
+            (Topo::TwoFamilies | Topo::TwoFamilies6, _) => vec![(0, 0)],
         }
     }
     /// number of request datagrams (with distinct payloads) a leg sends
@@ -186,12 +218,18 @@ impl UdpCase {
             Topo::Steady => 2 * prune_timeout().as_secs() as usize + 4,
             Topo::Idle | Topo::IdleGap => 2,
             Topo::Varying => 5,
+            // A, B, A, B
+            Topo::TwoFamilies | Topo::TwoFamilies6 => 4,
             _ => EXCHANGES,
         }
     }
     /// Is this point part of the matrix? (the two-target topologies need a per-datagram destination,
     /// the stray-datagram ones a relay port)
     pub fn valid(&self) -> bool {
+        if self.topo.two_families() {
+            // (a domain-typed header would need a name for [::1]; the IP-typed headers say it all)
+            return self.kind == UKind::SocksIp;
+        }
         !(matches!(self.topo, Topo::TwoPorts | Topo::TwoHosts) || self.topo.stray().is_some()) || self.kind.socks()
     }
     /// payload length of exchange `seq` (constant except in the varying-lengths topology)
@@ -209,7 +247,7 @@ impl UdpCase {
         }
     }
     pub fn n_targets(&self) -> usize {
-        if matches!(self.topo, Topo::TwoPorts | Topo::TwoHosts) { 2 } else { 1 }
+        if matches!(self.topo, Topo::TwoPorts | Topo::TwoHosts | Topo::TwoFamilies | Topo::TwoFamilies6) { 2 } else { 1 }
     }
     /// Which target exchange `seq` of a leg is addressed to (A, B, A for the two-target topologies).
     pub fn target_idx(&self, _leg: usize, seq: usize) -> usize {
@@ -347,6 +385,30 @@ struct LegResult {
     /// idle-gap scenario: the first transmission after the gap was not at the target within
     /// GAP_FIRST_TX_MS (before any retransmission); how many datagrams the target had seen by then
     first_tx_after_gap_lost: Option<usize>,
+    /// two-address-families scenarios: exchanges whose FIRST transmission verifiably never reached
+    /// its target while a fresh association reached it (descriptions; these exchanges were
+    /// completed by a retransmission, the one that was not is in `missing`)
+    family_lost: Vec<String>,
+}
+
+/// the key of "a datagram to a target of the other address family is not delivered"
+pub const FAMILY_KEY: &str = "udp.socks5.second-address-family-unreachable";
+
+/// Wait up to `ms` for exchange `seq` to be answered, without transmitting anything.
+async fn wait_answer(io: &LegIo, want: &[u8], seq: usize, base: usize, earlier: &[Vec<u8>], ms: u64) -> Option<bool> {
+    let until = Instant::now() + Duration::from_millis(ms);
+    loop {
+        let notified = io.note.notified();
+        let ok = answered(&io.log, io.socks, io.entry, want, seq, base, earlier);
+        if ok.is_some() {
+            return ok;
+        }
+        let now = Instant::now();
+        if now >= until {
+            return None;
+        }
+        let _ = tokio::time::timeout(until - now, notified).await;
+    }
 }
 
 /// The local end of a leg.
@@ -402,10 +464,10 @@ pub struct StrayCtx {
     deadline: Instant,
 }
 
-/// Control exchange of the stray-datagram scenarios: a FRESH association at the same entry
+/// Control exchange of the stray-datagram and two-address-families scenarios: a FRESH association at the same entry
 /// point (same client, same server, same target), one exchange with the usual loss tolerance.
 /// Ok(milliseconds the answered transmission took) or Err(what went wrong).
-async fn control_exchange(ctx: &StrayCtx, target: &(SocketAddr, Option<String>), waits: &[u64]) -> Result<u64, String> {
+async fn control_exchange(ctx: &StrayCtx, target: &(SocketAddr, Option<String>), mask: u8, tag: usize, waits: &[u64]) -> Result<u64, String> {
     let mut ctl = env::connect_tcp_entry(ctx.proxy, &ctx.client_done, ctx.deadline).await.map_err(|e| format!("connect to the SOCKS entry point: {e:?}"))?;
     let mut relay = match tokio::time::timeout(ctx.deadline.saturating_duration_since(Instant::now()), proto::socks5_udp_associate(&mut ctl)).await {
         Ok(Ok(a)) => a,
@@ -416,8 +478,8 @@ async fn control_exchange(ctx: &StrayCtx, target: &(SocketAddr, Option<String>),
         relay.set_ip(IpAddr::from([127, 0, 0, 1]));
     }
     let sock = UdpSocket::bind("127.0.0.1:0").await.map_err(|e| format!("bind: {e}"))?;
-    let req = request(STRAY_LEN, CONTROL_LEG, 0);
-    let want = reply_of(&req, MASKS[0]);
+    let req = request(STRAY_LEN, CONTROL_LEG, tag);
+    let want = reply_of(&req, mask);
     let wire = proto::build_udp_request(target.0, target.1.as_deref(), &req);
     let mut buf = vec![0u8; 65536 + 64];
     for w in waits {
@@ -445,9 +507,9 @@ async fn control_exchange(ctx: &StrayCtx, target: &(SocketAddr, Option<String>),
 }
 
 #[allow(clippy::too_many_arguments)]
-async fn run_leg(leg: usize, case: UdpCase, sock: Arc<UdpSocket>, log: Log, note: Arc<Notify>, entry: SocketAddr, targets: Vec<(SocketAddr, Option<String>)>, short: bool, tlog: Log, stray_ctx: Option<StrayCtx>) -> LegResult {
+async fn run_leg(leg: usize, case: UdpCase, sock: Arc<UdpSocket>, log: Log, note: Arc<Notify>, entry: SocketAddr, targets: Vec<(SocketAddr, Option<String>)>, short: bool, tlogs: Vec<Log>, stray_ctx: Option<StrayCtx>) -> LegResult {
     let socks = case.kind.socks();
-    let mut res = LegResult { sent: 0, sent_to: [0; 2], retrans: 0, completed: 0, wrong: 0, missing: None, first_tx_after_gap_lost: None };
+    let mut res = LegResult { sent: 0, sent_to: [0; 2], retrans: 0, completed: 0, wrong: 0, missing: None, first_tx_after_gap_lost: None, family_lost: Vec::new() };
     let mut earlier: Vec<Vec<u8>> = Vec::new();
     let waits = if short { WAITS_SHORT_MS } else { WAITS_MS };
     let io = LegIo { sock, log, note, socks, entry };
@@ -484,13 +546,13 @@ async fn run_leg(leg: usize, case: UdpCase, sock: Arc<UdpSocket>, log: Log, note
         let want = reply_of(&req, MASKS[tk]);
         let wire = if socks { proto::build_udp_request(*target, domain.as_deref(), &req) } else { req.clone() };
         let base = lk(&io.log).len();
-        let at_target = || lk(&tlog).iter().filter(|(_, d)| *d == req).count();
+        let at_target = || lk(&tlogs[tk]).iter().filter(|(_, d)| *d == req).count();
         let ok = if case.topo == Topo::IdleGap && seq == 1 {
             // the first transmission is judged on its own: GAP_FIRST_TX_MS for it to show up at the
             // target; only then the usual retransmissions (so that the scenario goes on either way)
             let mut ok = transmit(&io, &wire, &want, seq, base, &earlier, &[GAP_FIRST_TX_MS], 0, tk, &mut res).await;
             if at_target() == 0 {
-                res.first_tx_after_gap_lost = Some(lk(&tlog).len());
+                res.first_tx_after_gap_lost = Some(lk(&tlogs[tk]).len());
             }
             if ok.is_none() {
                 ok = transmit(&io, &wire, &want, seq, base, &earlier, &waits[1..], 1, tk, &mut res).await;
@@ -502,7 +564,7 @@ async fn run_leg(leg: usize, case: UdpCase, sock: Arc<UdpSocket>, log: Log, note
             // tolerance), then the old one once more.
             let mut ok = transmit(&io, &wire, &want, seq, base, &earlier, &waits[..3], 0, tk, &mut res).await;
             if ok.is_none() {
-                match control_exchange(ctx, &targets[0], &waits).await {
+                match control_exchange(ctx, &targets[0], MASKS[0], 0, &waits).await {
                     Ok(rtt_ms) => {
                         let last_wait = (20 * rtt_ms).max(1000);
                         ok = transmit(&io, &wire, &want, seq, base, &earlier, &[last_wait], 3, tk, &mut res).await;
@@ -526,6 +588,41 @@ async fn run_leg(leg: usize, case: UdpCase, sock: Arc<UdpSocket>, log: Log, note
                         // nothing works any more: not specific to this association; the generic verdict
                         ok = transmit(&io, &wire, &want, seq, base, &earlier, &waits[3..], 3, tk, &mut res).await;
                     }
+                }
+            }
+            ok
+        } else if let (true, Some(ctx), true) = (case.topo.two_families(), stray_ctx.as_ref(), seq >= 1) {
+            // The first transmission is judged on its own. Not at its target after FAMILIES_FIRST_TX_MS:
+            // is it the path to that target? A fresh association through the same client and server
+            // is tried (full loss tolerance); if that one reaches the target and, a long time later
+            // (>= 1 s and >= 20 times what the fresh association took), the datagram of the old
+            // association still has not arrived, it was not delayed: it was never delivered.
+            let mut ok = transmit(&io, &wire, &want, seq, base, &earlier, &[FAMILIES_FIRST_TX_MS], 0, tk, &mut res).await;
+            let mut lost: Option<(u64, u64)> = None;
+            if ok.is_none() && at_target() == 0 {
+                if let Ok(rtt_ms) = control_exchange(ctx, &targets[tk], MASKS[tk], seq, &waits).await {
+                    let more = (20 * rtt_ms).max(1000);
+                    ok = wait_answer(&io, &want, seq, base, &earlier, more).await;
+                    if ok.is_none() && at_target() == 0 {
+                        lost = Some((FAMILIES_FIRST_TX_MS + more, rtt_ms));
+                    }
+                }
+            }
+            if ok.is_none() {
+                ok = transmit(&io, &wire, &want, seq, base, &earlier, &waits[1..], 1, tk, &mut res).await;
+            }
+            if let Some((waited, rtt_ms)) = lost {
+                let before: Vec<String> = (0..seq).map(|q| format!("{}", targets[case.target_idx(leg, q)].0)).collect();
+                let d = format!(
+                    "one local socket, ONE association: the exchange(s) before (with {before:?}, in this order) worked; exchange {seq} was addressed to {} ({}), a target of the other address family than the one before: its first transmission was not at that target {waited} ms later, although in between a FRESH association at the same SOCKS entry point exchanged a datagram with that very target in {rtt_ms} ms (the path works, the datagram was not delivered); {}",
+                    target,
+                    if target.is_ipv4() { "ATYP 1" } else { "ATYP 4" },
+                    if ok.is_some() { format!("the exchange was completed only by a retransmission (the target saw the request {} time(s) after {} transmissions)", at_target(), res.sent_to[tk]) } else { format!("the {} retransmissions over {} ms got no reply either (the target saw the request {} time(s))", waits.len() - 1, waits[1..].iter().sum::<u64>(), at_target()) }
+                );
+                if ok.is_some() {
+                    res.family_lost.push(d);
+                } else {
+                    res.missing = Some((FAMILY_KEY.into(), d, false));
                 }
             }
             ok
@@ -578,7 +675,7 @@ async fn run_steady(case: UdpCase, sock: Arc<UdpSocket>, log: Log, note: Arc<Not
     let socks = case.kind.socks();
     let fam = case.kind.family();
     let nx = case.exchanges();
-    let mut res = LegResult { sent: 0, sent_to: [0; 2], retrans: 0, completed: 0, wrong: 0, missing: None, first_tx_after_gap_lost: None };
+    let mut res = LegResult { sent: 0, sent_to: [0; 2], retrans: 0, completed: 0, wrong: 0, missing: None, first_tx_after_gap_lost: None, family_lost: Vec::new() };
     let wire_of = |seq: usize| {
         let req = request(case.len_at(seq), 0, seq);
         if socks { proto::build_udp_request(target.0, target.1.as_deref(), &req) } else { req }
@@ -696,15 +793,19 @@ pub async fn run_udp(envr: &Env, case: &UdpCase, deadline_s: u64, short_waits: b
     let mut tsocks: Vec<Arc<UdpSocket>> = Vec::new();
     for attempt in 0..50 {
         tsocks.clear();
-        let a = match UdpSocket::bind("127.0.0.1:0").await {
+        let a = match UdpSocket::bind(if case.topo == Topo::TwoFamilies6 { "[::1]:0" } else { "127.0.0.1:0" }).await {
             Ok(s) => s,
             Err(e) => return machinery(format!("bind udp target: {e}")),
         };
         let pa = a.local_addr().expect("target addr").port();
         tsocks.push(Arc::new(a));
         if n_targets == 2 {
-            // same host string, other port -- or other host string (127.0.0.2), same port
-            let second = if case.topo == Topo::TwoPorts { UdpSocket::bind("127.0.0.1:0").await } else { UdpSocket::bind(("127.0.0.2", pa)).await };
+            // same host string, other port -- or other host string (127.0.0.2), same port -- or the other address family
+            let second = match case.topo {
+                Topo::TwoPorts | Topo::TwoFamilies6 => UdpSocket::bind("127.0.0.1:0").await,
+                Topo::TwoFamilies => UdpSocket::bind("[::1]:0").await,
+                _ => UdpSocket::bind(("127.0.0.2", pa)).await,
+            };
             match second {
                 Ok(b) => tsocks.push(Arc::new(b)),
                 Err(_) if attempt < 49 => continue,
@@ -834,8 +935,8 @@ pub async fn run_udp(envr: &Env, case: &UdpCase, deadline_s: u64, short_waits: b
                 handles.push(tokio::spawn(run_steady(case.clone(), socks_v[*si].clone(), logs[*si].clone(), notes[*si].clone(), entry_addrs[*ei], targets[0].clone(), tsocks[0].clone(), tlogs[0].clone(), short_waits)));
                 continue;
             }
-            let stray_ctx = case.topo.stray().map(|_| StrayCtx { proxy: SocketAddr::from(([127, 0, 0, 1], leases[0].port)), client_done: client_done.clone(), deadline });
-            handles.push(tokio::spawn(run_leg(l, case.clone(), socks_v[*si].clone(), logs[*si].clone(), notes[*si].clone(), entry_addrs[*ei], targets.clone(), short_waits, tlogs[0].clone(), stray_ctx)));
+            let stray_ctx = case.topo.has_control().then(|| StrayCtx { proxy: SocketAddr::from(([127, 0, 0, 1], leases[0].port)), client_done: client_done.clone(), deadline });
+            handles.push(tokio::spawn(run_leg(l, case.clone(), socks_v[*si].clone(), logs[*si].clone(), notes[*si].clone(), entry_addrs[*ei], targets.clone(), short_waits, tlogs.clone(), stray_ctx)));
         }
         for h in handles {
             leg_results.push(h.await.ok());
@@ -893,8 +994,8 @@ pub async fn run_udp(envr: &Env, case: &UdpCase, deadline_s: u64, short_waits: b
             if for_here {
                 continue;
             }
-            if case.topo.stray().is_some() && *data == request(STRAY_LEN, CONTROL_LEG, 0) {
-                // the control exchange (a fresh association) of a stray-datagram scenario
+            if case.topo.has_control() && (0..8).any(|tag| *data == request(STRAY_LEN, CONTROL_LEG, tag)) {
+                // the control exchange (a fresh association) of a stray-datagram / two-address-families scenario
                 continue;
             }
             if let Some((l, q)) = all_lq.iter().find(|(l, q)| request(case.len_at(*q), *l, *q) == *data) {
@@ -906,7 +1007,11 @@ pub async fn run_udp(envr: &Env, case: &UdpCase, deadline_s: u64, short_waits: b
                         target_addrs[k],
                         data.len(),
                         target_addrs[to],
-                        if case.topo == Topo::TwoPorts { "same host string, other port" } else { "other host string, same port" }
+                        match case.topo {
+                            Topo::TwoPorts => "same host string, other port",
+                            Topo::TwoFamilies | Topo::TwoFamilies6 => "other address family",
+                            _ => "other host string, same port",
+                        }
                     ),
                     false,
                 );
@@ -921,7 +1026,9 @@ pub async fn run_udp(envr: &Env, case: &UdpCase, deadline_s: u64, short_waits: b
         // payloads that carry no exchange number (empty ones): at least count
         if n_targets == 2 {
             let addressed: u64 = leg_results.iter().flatten().map(|r| r.sent_to[k]).sum();
-            if log_k.len() as u64 > addressed {
+            // (the datagrams of control exchanges, which fresh associations sent, are not the legs')
+            let n_control = if case.topo.has_control() { log_k.iter().filter(|(_, d)| (0..8).any(|tag| *d == request(STRAY_LEN, CONTROL_LEG, tag))).count() } else { 0 };
+            if (log_k.len() - n_control) as u64 > addressed {
                 push(
                     format!("udp.request.misdirected.{fam}"),
                     format!("target {k} ({}) received {} datagrams but only {addressed} were addressed to it (the other target, {}, received {})", target_addrs[k], log_k.len(), target_addrs[1 - k], lk(&tlogs[1 - k]).len()),
@@ -1044,6 +1151,9 @@ pub async fn run_udp(envr: &Env, case: &UdpCase, deadline_s: u64, short_waits: b
                 ),
                 true,
             );
+        }
+        for d in &r.family_lost {
+            push(FAMILY_KEY.into(), d.clone(), false);
         }
         if r.completed < nx {
             if let Some((k, d, dl)) = &r.missing {
